@@ -20,7 +20,8 @@ EXPLANATION = (
     "that establish the required facts (peer in verified_peers and key in peer.addresses.values(); address in _all_addresses "
     "and introduced_by == the peer's key; peer in verified_peers and service in services_per_peer[peer key]). Plus blacklist "
     "guards (followed into private helpers of add_verified_peer), by-key pairing, removal completeness (remove_by_address "
-    "looks at every verified peer on every path; remove_peer removes unless not a member), snapshot codec symmetry and the "
+    "looks at every verified peer on every path; remove_peer removes unless not a member; both forget the removed instance in the address and service caches, whose readers "
+    "validate by equality), snapshot codec symmetry and the "
     "closed set of external writers. LRU eviction order is not explored - a miss recomputes (checked)."
 )
 
